@@ -22,9 +22,10 @@ func init() {
 			"Added after blind round 5: ReadEntry answers an explicit io.EOF only behind err == io.EOF. " +
 			"Added after blind round 6: NewManager has a log before recovery (writes acknowledged after a recovery must be numbered above what was recovered). " +
 			"Added after blind round 7: after a damaged record the resynchronisation either skips at least one maximal record or resets the pending fragments (a torn entry's first fragment must not be glued to later ones). " +
-			"Added after blind round 8: re-stated after fix 4f4a928: the exits of ReadEntry that report a damaged record lie behind a reset of the pending fragments (the earlier criterion 'the resynchronisation skips a maximal record' was unsound and has been withdrawn).",
+			"Added after blind round 8: re-stated after fix 4f4a928: the exits of ReadEntry that report a damaged record lie behind a reset of the pending fragments (the earlier criterion 'the resynchronisation skips a maximal record' was unsound and has been withdrawn). " +
+			"Added after blind round 9: wal.OpenReader fails only behind a failed system call; no integer division by an untested variable in the functions recovery reaches (a counter of recovered entries is 0 when the first record is damaged: a panic at every open).",
 		NotDecided: "the set of entries delivered for each truncation offset / corruption position (enumeration: a different family); that resynchronisation after skipping 32 KB finds a record boundary.",
-		Rules:      []func(*Ctx, *Reporter){ruleWalErrorClasses, ruleDestructiveOps, ruleReuseValidatesTail, ruleWalCRC, ruleNoFabrication, ruleLogExistsBeforeRecovery, ruleSkipAfterDamageDropsFragments},
+		Rules:      []func(*Ctx, *Reporter){ruleWalErrorClasses, ruleDestructiveOps, ruleReuseValidatesTail, ruleWalCRC, ruleNoFabrication, ruleLogExistsBeforeRecovery, ruleSkipAfterDamageDropsFragments, ruleLogOpenFailsOnlyOnIO, ruleNoUnguardedDivisionOnOpenPath},
 	})
 }
 
